@@ -89,6 +89,10 @@ def _field(mesh, arr, rng=None):
         kw["dtype"] = gen.pick(rng, [int, np.int64, np.int32])
     elif rng is not None and arr.dtype.kind == "f" and rng.random() < 0.2:
         kw["dtype"] = np.float64
+    if rng is not None and rng.random() < 0.4:
+        # "the sum of the cell values": the statement knows no exception for cells that are
+        # marked invalid (they keep their - here non-zero - numbers)
+        kw["valid"] = gen.rand_valid(rng, mesh.n, kind=gen.pick(rng, ["random", "sparse", "dense"]))
     return gen.via_history(None, df.Field(mesh, nvdim=nvdim, value=arr.copy(), **kw))
 
 
